@@ -22,6 +22,7 @@ cands = [chr(c) for c in range(0x20, 0x7f)] + [chr(c) for c in range(0xa0, 0x100
 rows = []
 for c in cands:
     if stringprep.in_table_a1(c): continue
+    if stringprep.in_table_b1(c) and stringprep.in_table_c12(c): continue  # U+200B is in both tables: RFC 4013 leaves the order open
     r = prep_char(c)
     if r is None: continue
     if any(ucd.combining(x) != 0 for x in r): continue  # no combining marks: results never compose with neighbours
